@@ -40,6 +40,7 @@ class Source:
         self.root = root
         self.overlay: Dict[str, str] = dict(overlay or {})
         self._cache: Dict[str, str] = {}
+        self.renames: List[str] = []
 
     def with_overlay(self, overlay: Dict[str, str]) -> "Source":
         new_overlay = dict(self.overlay)
@@ -75,7 +76,21 @@ class Source:
     def exists(self, rel: str) -> bool:
         return rel in self.overlay or os.path.exists(os.path.join(self.root, rel))
 
-    def read(self, rel: str) -> str:
+    def read(self, rel: str, raw: bool = False) -> str:
+        """Text of a file; package sources are returned with renamed private members renamed
+        back to their pinned names (sa/canon.py) unless ``raw``."""
+        text = self._read_raw(rel)
+        if raw or not (rel.startswith(PKG + "/") and rel.endswith(".py")):
+            return text
+        from sa import canon
+
+        text, notes = canon.canonicalise(rel, text)
+        for note in notes:
+            if note not in self.renames:
+                self.renames.append(note)
+        return text
+
+    def _read_raw(self, rel: str) -> str:
         if rel in self.overlay:
             return self.overlay[rel]
         if rel not in self._cache:
